@@ -398,7 +398,8 @@ func (p *Pkg) CheckRelationships() []Problem {
 			case "doc":
 				if owner == "" {
 					out = append(out, Problem{"rel-wrong-owner", ownerClass + "|" + shortType(r.Type), rn})
-				} else if r.Type != RtImage && owner != main {
+				} else if r.Type != RtImage && owner != main && !strings.HasSuffix(p.ContentTypeOf(owner), "document.glossary+xml") {
+					// (a glossary document is a document of its own and owns its styles/settings/... relationships)
 					out = append(out, Problem{"rel-wrong-owner", ownerClass + "|" + shortType(r.Type), rn})
 				}
 			}
